@@ -49,4 +49,21 @@ Separates(c, C, n) ==
 IsTopoOrder(c, ord) ==
   /\ Len(ord) = c.n /\ Range(ord) = 1..c.n
   /\ \A p, q \in 1..c.n : ord[p] \in Range(c.fi[ord[q]]) => p < q
+
+\* every simple path (no node twice) from s to t, s # t, as a sequence of nodes; defined on cyclic graphs too.
+\* This is what Circuit.paths(s, t, cutoff) enumerates (networkx all_simple_paths): cutoff = -1 means none,
+\* otherwise only the paths of at most `cutoff` edges.
+RECURSIVE PathsFromTo(_,_,_)
+PathsFromTo(fo, p, t) ==
+  LET u == p[Len(p)] IN
+  IF u = t THEN {p} ELSE UNION {PathsFromTo(fo, Append(p, v), t) : v \in fo[u] \ Range(p)}
+SimplePaths(c, s, t) == PathsFromTo(FoMap(c), <<s>>, t)
+PathsWithin(c, s, t, cutoff) == {p \in SimplePaths(c, s, t) : cutoff = -1 \/ Len(p) - 1 <= cutoff}
+\* consequences used by MCPaths: a path exists exactly when t is a descendant of s; every path is a walk along edges
+PathIsWalk(c, p) == \A k \in 1..(Len(p) - 1) : p[k] \in Range(c.fi[p[k + 1]])
+
+\* the plain accessors of the class
+EdgeSet(c)        == UNION {{<<u, j>> : u \in Range(c.fi[j])} : j \in 1..c.n}
+IoSet(c)          == Inputs(c) \cup Outputs(c)
+FilterType(c, T)  == OfType(c, T)
 =============================================================================
